@@ -35,7 +35,7 @@ func runC13(x *mc.X) {
 	failure := mc.Pick(x, "failure", c13Failures(x.Tier()))
 	blocker := mc.Pick(x, "blocker", []string{"", "must-revalidate", "stored-no-cache", "request-no-cache"})
 	withETag := x.Choose("validators", 2) == 0
-	reqExtra := mc.Pick(x, "request.extra", []string{"", "max-stale", "max-stale=100000"})
+	reqExtra := mc.Pick(x, "request.extra", []string{"", "max-stale", "max-stale=100000", "max-age=0"})
 	storedSIE, reqSIE := "", ""
 	switch placement {
 	case "stored":
@@ -94,7 +94,7 @@ func runC13(x *mc.X) {
 
 	eligible := failure < 0 || failure == 500 || failure == 502 || failure == 503 || failure == 504
 	applicable := storedSIE != "" || reqSIE != ""
-	if reqExtra != "" && blocker != "must-revalidate" && blocker != "stored-no-cache" {
+	if strings.HasPrefix(reqExtra, "max-stale") && blocker != "must-revalidate" && blocker != "stored-no-cache" {
 		x.Skip() // with max-stale and no blocking directive the stale response is simply served without validation
 	}
 	cls := fmt.Sprintf("placement=%s/inWindow=%v/atBoundary=%v/eligible=%v/blocker=%s", placement, staleness < N, staleness == N, eligible, blocker)
